@@ -196,14 +196,25 @@ func c20ReadTable(b []byte, wantHeader []string) ([]map[string]string, error) {
 	if len(recs) == 0 {
 		return nil, fmt.Errorf("no header row: %q", b)
 	}
-	if !reflect.DeepEqual(recs[0], wantHeader) {
-		return nil, fmt.Errorf("header is %q, want %q", recs[0], wantHeader)
+	// the statement speaks of reading back "under the header names": every expected name must be there (exactly once);
+	// additional columns would not contradict it and are ignored
+	idx := map[string]int{}
+	for i, h := range recs[0] {
+		if _, dup := idx[h]; dup {
+			return nil, fmt.Errorf("header names column %q twice: %q", h, recs[0])
+		}
+		idx[h] = i
+	}
+	for _, h := range wantHeader {
+		if _, ok := idx[h]; !ok {
+			return nil, fmt.Errorf("header %q lacks column %q", recs[0], h)
+		}
 	}
 	var rows []map[string]string
 	for _, rec := range recs[1:] {
 		m := map[string]string{}
-		for i, h := range recs[0] {
-			m[h] = rec[i]
+		for _, h := range wantHeader {
+			m[h] = rec[idx[h]]
 		}
 		rows = append(rows, m)
 	}
